@@ -41,7 +41,7 @@ SIGNED = {f: f[0] in "iI" for f in FORMATS}
 REPBITS = {"i8": 8, "i16": 16, "I24": 32, "i32": 32, "I48": 64, "i64": 64, "u8": 8, "u16": 16, "U24": 32, "u32": 32, "U48": 64, "u64": 64}
 FW = {32: dict(prec=24, mw=23, ew=8, emax=128, bias=127, name="f32"), 64: dict(prec=53, mw=52, ew=11, emax=1024, bias=1023, name="f64")}
 TEST_CONV = os.environ.get("DASP_CONV_RS")  # TESTING ONLY: pretend /repo's conv.rs were this file
-N_THEOREMS = 30
+N_THEOREMS = 25
 
 
 def fmin(f):
